@@ -56,6 +56,10 @@ pub fn generate(tier: &str, rng: &mut Rng) -> Vec<String> {
         }
         out.push(c.line());
     }
+    // one frame above 64 KiB with more frames behind it in the same chunk (seed C07f)
+    for _ in 0..(if thorough { 400 } else { 40 }) {
+        out.push(gen_dec_big(rng, false).line());
+    }
     // messages around and above the default yield threshold (32 KiB)
     for (i, len) in [32762usize, 32763, 32764, 40000, 70000].iter().enumerate() {
         let m: Vec<u8> = (0..*len).map(|k| (k % 251) as u8).collect();
